@@ -462,6 +462,21 @@ func TestC19(t *testing.T) {
 		if _, err := mapping.FromProto(nil); err == nil {
 			t.Fatalf("C19: FromProto(nil) returned no error")
 		}
+		// a message handed out belongs to the caller: writing into it (or recycling it as the target of an Unmarshal)
+		// must not change what the mapping says of itself afterwards
+		pb.Gamma, pb.IndexOffset, pb.Interpolation = pb.Gamma*2+1, pb.IndexOffset-7.5, (pb.Interpolation+1)%4
+		if err := proto.Unmarshal([]byte{0x09, 0, 0, 0, 0, 0, 0, 0x10, 0x40}, pb); err != nil { // gamma = 4
+			t.Fatalf("C19: Unmarshal into a recycled message: %v", err)
+		}
+		again := m.ToProto()
+		if again.Interpolation != kindInterp[spec.Kind] || !obs.FEq(again.Gamma, gamma) || !obs.FEq(again.IndexOffset, offset) {
+			t.Fatalf("C19 %s: after the caller wrote into an earlier message, ToProto() = %v", spec, again)
+		}
+		pm2, err := mapping.FromProto(again)
+		if err != nil {
+			t.Fatalf("C19 %s: FromProto(second message) failed: %v", spec, err)
+		}
+		checkSame("protobuf round-trip after an earlier message was modified", pm2)
 
 		// ---- built from alpha vs from its own (gamma, offset)
 		rebuilt, err := gen.MapSpec{Kind: spec.Kind, Gamma: gamma, Offset: offset}.Build()
